@@ -23,6 +23,8 @@ import ASV.Proofs.RotationCandidates
 import ASV.Proofs.RotationRing
 import ASV.Proofs.RotateLoc
 import ASV.Model.Pipeline
+import ASV.Proofs.RulesetSelection
+import ASV.Props.C02
 namespace ASV.C07
 open ASV ASV.Rules ASV.Proto ASV.Chains
 
@@ -624,6 +626,85 @@ theorem pipeline_result_sound_on_every_origin (r : Rec) (hcirc : r.circular = tr
   refine ⟨no_chain_reported_in_two_pieces_any_origin (withinReal r) r hcirc hL rules hrules hgenes res.outs h1, ?_⟩
   rw [h3]
   exact ASV.C05.every_protocluster_in_a_candidate _ _ _ h2
+
+/-! ## Part 5 — sub-selection through `hmm_detection.get_ruleset` (C02's heap model of `Ruleset`) -/
+
+/-- **A rule is the same rule in every sub-selection.**  One process asks `get_ruleset` for a ruleset
+    (`q1`: any strictness, taxon, fungal multipliers, restriction) and then for another one that differs in the
+    rule-name / category restriction only (`q2`).  Read after both requests — the rule objects are mutable and
+    `copy_with_replacements` shares them — every rule that both rulesets hold under one name is identical in
+    both: same cutoff, same neighbourhood (each the parsed distance scaled once by the request's
+    multipliers), same conditions, superiors and extenders.  So restricting the ruleset cannot change what a
+    remaining rule detects.  (`st` is any state reachable by earlier requests, `Rulesets.Inv`; rule names
+    identify the parsed rules, which the parser enforces.)  The seeded change C07_1 — multipliers handed to
+    `from_files` and inherited by the copy, so a restricted ruleset is scaled twice — falsifies this. -/
+theorem subselection_keeps_rule_distances (parsed : String → Except Parser.Err (List Parser.Rule))
+    (q1 q2 : Rulesets.Req) (hs : q2.strictness = q1.strictness) (hf : q2.fungi = q1.fungi)
+    (hcm : q2.cmul = q1.cmul) (hnm : q2.nmul = q1.nmul)
+    (st st1 st2 : Rulesets.State) (rs1 rs2 : Rulesets.RS) (inv : Rulesets.Inv parsed st)
+    (h1 : Rulesets.getRuleset parsed q1 st = .ok (rs1, st1))
+    (h2 : Rulesets.getRuleset parsed q2 st1 = .ok (rs2, st2))
+    (rules : List Parser.Rule) (hp : parsed q1.strictness = .ok rules)
+    (hd : ∀ x ∈ rules, ∀ y ∈ rules, x.name = y.name → x = y) :
+    ∀ r1 ∈ rs1.read st2.heap, ∀ r2 ∈ rs2.read st2.heap, r1.name = r2.name →
+      r1 = r2 ∧ r1.cutoff = r2.cutoff ∧ r1.neighbourhood = r2.neighbourhood := by
+  obtain ⟨inv1, ⟨k1, hk1, e1, _, _, f1, t1⟩, _⟩ := Rulesets.getRuleset_inv parsed q1 st st1 rs1 h1 inv
+  obtain ⟨inv2, ⟨k2, hk2, e2, _, _, f2, t2⟩, mono⟩ := Rulesets.getRuleset_inv parsed q2 st1 st2 rs2 h2 inv1
+  obtain ⟨_, rules1, hp1, hr1, _⟩ := inv2 (k1, rs1) (mono _ hk1)
+  obtain ⟨_, rules2, hp2, hr2, _⟩ := inv2 (k2, rs2) hk2
+  simp only at hp1 hp2 hr1 hr2
+  rw [e1, hp] at hp1
+  rw [e2, hs, hp] at hp2
+  cases hp1; cases hp2
+  have hm : k2.mul = k1.mul := by
+    cases hfu : q1.fungi with
+    | false => rw [f1 hfu, f2 (by rw [hf]; exact hfu)]
+    | true =>
+      have a := t1 hfu
+      have b := t2 (by rw [hf]; exact hfu)
+      rw [hcm, hnm, a] at b
+      exact (Except.ok.inj b).symm
+  intro r1 hr1' r2 hr2' hn
+  rw [hr1] at hr1'
+  rw [hr2, hm] at hr2'
+  have := Rulesets.wanted_rule_independent rules _ _ _ _ k1.mul hd r1 r2 hr1' hr2' hn
+  subst this
+  exact ⟨rfl, rfl, rfl⟩
+
+/-- … and for any number of requests in one process, in any order, with repetitions: two rulesets handed
+    out for the same strictness and multipliers agree on every rule they both hold (read after the last
+    request) -/
+theorem rulesets_of_one_process_agree_on_shared_rules (parsed : String → Except Parser.Err (List Parser.Rule))
+    (reqs : List Rulesets.Req) (out : List Rulesets.RS) (st : Rulesets.State)
+    (h : Rulesets.run parsed reqs {} = .ok (out, st)) :
+    ∀ rs1 ∈ out, ∀ rs2 ∈ out, ∃ k1 k2, (k1, rs1) ∈ st.cache ∧ (k2, rs2) ∈ st.cache ∧
+      (k1.strictness = k2.strictness → k1.mul = k2.mul → ∀ rules, parsed k1.strictness = .ok rules →
+        (∀ x ∈ rules, ∀ y ∈ rules, x.name = y.name → x = y) →
+        ∀ r1 ∈ rs1.read st.heap, ∀ r2 ∈ rs2.read st.heap, r1.name = r2.name → r1 = r2) := by
+  obtain ⟨_, hall⟩ := ASV.C02.rulesets_scaled_once parsed reqs out st h
+  intro rs1 h1 rs2 h2
+  obtain ⟨k1, rules1, hk1, hp1, hr1, _⟩ := hall rs1 h1
+  obtain ⟨k2, rules2, hk2, hp2, hr2, _⟩ := hall rs2 h2
+  refine ⟨k1, k2, hk1, hk2, ?_⟩
+  intro hs hm rules hp hd r1 hr1' r2 hr2' hn
+  rw [hp] at hp1
+  rw [← hs, hp] at hp2
+  have e1 : rules1 = rules := (Except.ok.inj hp1).symm
+  have e2 : rules2 = rules := (Except.ok.inj hp2).symm
+  rw [hr1, e1] at hr1'
+  rw [hr2, e2, ← hm] at hr2'
+  exact Rulesets.wanted_rule_independent rules _ _ _ _ k1.mul hd r1 r2 hr1' hr2' hn
+
+/-- non-vacuity: fungi, both multipliers 3/2; the whole ruleset, then the restriction to rule `b`: `b` has
+    cutoff 30 000 and neighbourhood 7 500 in both (20 kb and 5 kb scaled once), read after both requests -/
+example :
+    let rule (n : String) (c k : Nat) : Parser.Rule := ⟨n, "cat", c, k, .single false "p", [], [], [], [], none⟩
+    let parsed : String → Except Parser.Err (List Parser.Rule) := fun _ => .ok [rule "a" 5000 1000, rule "b" 20000 5000]
+    let q : Rulesets.Req := ⟨"relaxed", [], [], true, (3, 2), (3, 2)⟩
+    (match Rulesets.run parsed [q, { q with names := ["b"] }] {} with
+      | .ok (out, st) => out.map fun rs => (rs.read st.heap).map fun r => (r.name, r.cutoff, r.neighbourhood)
+      | .error _ => []) = [[("a", 7500, 1500), ("b", 30000, 7500)], [("b", 30000, 7500)]] := by
+  decide +kernel
 
 /-! ### the layout of the seeded change C07_3: a chain A – e1 – B – e2 – C that exists only through EXTENDERS -/
 
